@@ -59,9 +59,15 @@ func nilCompare(aVal, bVal reflect.Value) (c int, ok bool)
   ensures [C11] !ok ==> !aVal.IsNil() && !bVal.IsNil()
   ensures [C05,C06,C12] ok && c == 0 ==> aVal.IsNil() && bVal.IsNil()
 
+-- cmp3 names compare's answer as a function of its two operands: compare reads nothing but the two values (no
+-- package state, no I/O), so it is one; the assume below states exactly that and nothing about WHICH answer it is
+assume pure func cmp3(a reflect.Value, b reflect.Value) (r int)
+
 func compare(aVal, bVal reflect.Value) (res int)
   modifies nothing
   may-panic
+  assume res == cmp3(aVal, bVal) at exit
+  ensures res == cmp3(aVal, bVal)
   -- values of one type have one kind, and arrays of one type one length (reflect)
   assume aVal.Type() == bVal.Type() ==> aVal.Kind() == bVal.Kind() && (aVal.Kind() == 17 ==> aVal.Len() == bVal.Len())
   -- what an interface holds is looked at only after both were seen to hold something
@@ -78,10 +84,12 @@ func compare(aVal, bVal reflect.Value) (res int)
   ensures [C06] aVal.Type() == bVal.Type() && (aVal.Kind() == 22 || aVal.Kind() == 26) ==> (aVal.Pointer() < bVal.Pointer() ==> res == -1) && (aVal.Pointer() > bVal.Pointer() ==> res == 1)
   ensures [C06] aVal.Type() != bVal.Type() ==> res == -1
 
+-- the order is an order of the KEYS at the two positions
 func (o *SortedMap) Less(i, j int) (r bool)
   requires 0 <= i && i < len(o.Key) && 0 <= j && j < len(o.Key)
   modifies nothing
   may-panic
+  ensures [C05,C06,C12] r <==> cmp3(o.Key[i], o.Key[j]) < 0
 
 -- the entries stay pairs: Swap exchanges the keys AND the values at the two positions and nothing else
 func (o *SortedMap) Swap(i, j int)
